@@ -58,6 +58,10 @@ def type_components(ty, acc):
         type_components(ty[1], acc)
         for p in ty[2]:
             type_components(p, acc)
+    else:
+        from vf.bp import sort_args
+        for a in sort_args(ty):         # instance of a parametric sort: its argument sorts
+            type_components(a, acc)
     return acc
 
 
@@ -245,7 +249,9 @@ def check_formula(run, bp, g, cards):
 
 
 CFGS = [Cfg(max_depth=4, pow=True), Cfg(max_depth=5, theories={"bool", "int", "bv", "uf", "quant", "arr", "sort"}, bv_widths=[1, 2, 4]),
-        Cfg(max_depth=4, quant_unbounded=True)]
+        Cfg(max_depth=4, quant_unbounded=True),
+        # instances of parametric sorts: their argument sorts are sorts of the formula too
+        Cfg(max_depth=3, sorts=["S1", "L{S1}", "P{S2, Int}", "L{Real}", "L{L{S2}}", "P{L{String}, Bool}"])]
 
 
 def shard(shard, seed, n):
